@@ -25,12 +25,16 @@ StreamEdits == {"hmagic", "hcrc", "hflag0", "checkReserved", "checkOther", "indi
                 \* a change in a high-order bit only (bits 28/30/31 of the stored backward size, bit 32 of a
                 \* count): TLC's integers are 32 bit wide, and the acceptor only compares for equality, so
                 \* all of them are modelled as "+ 2^30"; the realisation sets the bit the name says
-                "backwardHigh28", "backwardHigh30", "backwardHigh31", "countHigh"}
+                "backwardHigh28", "backwardHigh30", "backwardHigh31", "countHigh",
+                \* a multibyte integer written as value + 2^64 (ten bytes, bit 64 in the last one): the number
+                \* in the file is not the right one, although arithmetic modulo 2^64 gives it back
+                "countWrap"}
 BlockEdits == {"sizeBytePlus", "sizeByteMinus", "resv", "nfilters", "filterId", "filterIdLow21", "propLen", "dict41", "dict255",
                "dictLarger", "dictSmaller", "hpadNonzero", "hpadPlus4", "hpadPlus4Nonzero", "hpadPlus8LastNonzero", "hcrcB", "addCsize", "addUsize",
                "csizeFPlus", "csizeFMinus", "usizeFPlus", "usizeFMinus", "padNonzero", "checkValue",
                "recUnpaddedPlus1", "recUnpaddedPlus4", "recUsizePlus", "recSwap",
-               "recUnpaddedHigh", "recUsizeHigh", "csizeFHigh", "usizeFHigh"}   \* bit 32 of the value
+               "recUnpaddedHigh", "recUsizeHigh", "csizeFHigh", "usizeFHigh",   \* bit 32 of the value
+               "recUnpaddedWrap", "recUsizeWrap", "csizeFWrap", "usizeFWrap", "filterIdWrap", "propLenWrap"}   \* value + 2^64
 
 ApplyS(e, s) ==
   CASE e = "hmagic"        -> [s EXCEPT !.magicOk = FALSE]
@@ -47,7 +51,7 @@ ApplyS(e, s) ==
     [] e = "backwardPlus"  -> [s EXCEPT !.backward = s.backward + 4]
     [] e = "backwardMinus" -> [s EXCEPT !.backward = s.backward - 4]
     [] e \in {"backwardHigh28", "backwardHigh30", "backwardHigh31"} -> [s EXCEPT !.backward = s.backward + 1073741824]
-    [] e = "countHigh"     -> [s EXCEPT !.count = s.count + 1073741824]
+    [] e \in {"countHigh", "countWrap"} -> [s EXCEPT !.count = s.count + 1073741824]
     [] e = "fflag0"        -> [s EXCEPT !.fflag0 = 1]
     [] e = "fcheck"        -> [s EXCEPT !.fcheck = OtherCheck(s.check)]
     [] e = "fmagic"        -> [s EXCEPT !.fmagicOk = FALSE]
@@ -99,10 +103,12 @@ ApplyB(e, s, i) ==
     [] e = "recUnpaddedPlus1" -> SetR(s, i, [s.recs[i] EXCEPT !.unpadded = s.recs[i].unpadded + 1])
     [] e = "recUnpaddedPlus4" -> SetR(s, i, [s.recs[i] EXCEPT !.unpadded = s.recs[i].unpadded + 4])
     [] e = "recUsizePlus"  -> SetR(s, i, [s.recs[i] EXCEPT !.usize = s.recs[i].usize + 1])
-    [] e = "recUnpaddedHigh" -> SetR(s, i, [s.recs[i] EXCEPT !.unpadded = s.recs[i].unpadded + 1073741824])
-    [] e = "recUsizeHigh"  -> SetR(s, i, [s.recs[i] EXCEPT !.usize = s.recs[i].usize + 1073741824])
-    [] e = "csizeFHigh"    -> SetB(s, i, [b EXCEPT !.csizeF = b.csizeF + 1073741824])
-    [] e = "usizeFHigh"    -> SetB(s, i, [b EXCEPT !.usizeF = b.usizeF + 1073741824])
+    [] e \in {"recUnpaddedHigh", "recUnpaddedWrap"} -> SetR(s, i, [s.recs[i] EXCEPT !.unpadded = s.recs[i].unpadded + 1073741824])
+    [] e \in {"recUsizeHigh", "recUsizeWrap"}  -> SetR(s, i, [s.recs[i] EXCEPT !.usize = s.recs[i].usize + 1073741824])
+    [] e = "filterIdWrap"  -> SetB(s, i, [b EXCEPT !.filterId = b.filterId + 1073741824])
+    [] e = "propLenWrap"   -> SetB(s, i, [b EXCEPT !.propLen = b.propLen + 1073741824])
+    [] e \in {"csizeFHigh", "csizeFWrap"}    -> SetB(s, i, [b EXCEPT !.csizeF = b.csizeF + 1073741824])
+    [] e \in {"usizeFHigh", "usizeFWrap"}    -> SetB(s, i, [b EXCEPT !.usizeF = b.usizeF + 1073741824])
     [] e = "recSwap"       -> LET j == IF i < Len(s.recs) THEN i + 1 ELSE 1 IN
                               [s EXCEPT !.recs = [s.recs EXCEPT ![i] = s.recs[j], ![j] = s.recs[i]]]
 
@@ -111,8 +117,8 @@ ApplicableS(e, s) == CASE e \in {"countMinus", "dropLastRec", "dupLastRec"} -> s
                        [] OTHER -> TRUE
 ApplicableB(e, s, i) ==
   LET b == s.blocks[i] IN
-  CASE e \in {"csizeFPlus", "csizeFMinus", "csizeFHigh"} -> b.csizeF >= 0
-    [] e \in {"usizeFPlus", "usizeFMinus", "usizeFHigh"} -> b.usizeF >= 0
+  CASE e \in {"csizeFPlus", "csizeFMinus", "csizeFHigh", "csizeFWrap"} -> b.csizeF >= 0
+    [] e \in {"usizeFPlus", "usizeFMinus", "usizeFHigh", "usizeFWrap"} -> b.usizeF >= 0
     [] e = "addCsize" -> b.csizeF < 0
     [] e = "addUsize" -> b.usizeF < 0
     [] e = "padNonzero" -> b.padLen > 0
